@@ -9,6 +9,9 @@
 (*   threads : Seq of [c, out]      results of concurrent renders           *)
 (*   given   : Seq of [before, after, sql]: renders with a caller-supplied  *)
 (*             parameterizer: its value list may only be appended to        *)
+(*   isolated: Seq of [c, out]      a FRESH, equal object rendered under    *)
+(*             context c only: what the context gives when nothing was      *)
+(*             rendered before it                                           *)
 (* Every render event must be the spec action Render: UNCHANGED store, and  *)
 (* output a function of (object, context).                                  *)
 EXTENDS Naturals, Sequences, FiniteSets, TLC, Json, IOUtils
@@ -26,6 +29,8 @@ Bad(e) ==
                                                         /\ e.procs[p].outs[x].out # First(e.renders, e.procs[p].outs[x].c)}}
               : p \in DOMAIN e.procs}
   \cup {<<"threads", e.threads[k].c>> : k \in {x \in DOMAIN e.threads : e.threads[x].out # First(e.renders, e.threads[x].c)}}
+  \cup {<<"history-dependent", e.isolated[k].c>> : k \in {x \in DOMAIN e.isolated : Known(e.renders, e.isolated[x].c)
+                                                                                  /\ e.isolated[x].out # First(e.renders, e.isolated[x].c)}}
   \cup {<<"parameterizer", "given">> : k \in {x \in DOMAIN e.given : ~IsPrefix(e.given[x].before, e.given[x].after)}}
 Next == /\ i <= Len(Events)
         /\ LET b == Bad(Events[i]) IN IF b = {} THEN TRUE ELSE PrintT("V " \o ToJson([tid |-> Events[i].tid, bad |-> b]))
